@@ -36,7 +36,7 @@ fn main_verifies_everything() {
     unsafe { VERIFY_OK = kani::any(); }
     let st = GlobalState { listeners: CompMap { items: [Comp { kind: 0, idx: 0 }, Comp { kind: 0, idx: 1 }], n: nl }, connectors: CompMap { items: [Comp { kind: 1, idx: 0 }, Comp { kind: 1, idx: 1 }], n: nc } };
     let config_test: bool = kani::any();
-    let r = kani::block_on(block(Arc(&st), config_test, "x"));
+    let r = run_ready(block(Arc(&st), config_test, "x"));
     unsafe {
         let mut all_ok = true;
         let mut i = 0;
@@ -51,5 +51,11 @@ fn main_verifies_everything() {
         kani::cover!(r.is_ok() && !config_test && nl == 2 && nc == 2);
         kani::cover!(r.is_err());
     }
+}
+/// every stub future is immediately ready, so the task completes within one poll (cheaper than kani::block_on's loop)
+pub fn run_ready<F: std::future::Future>(f: F) -> F::Output {
+    let mut f = std::pin::pin!(f);
+    let mut cx = std::task::Context::from_waker(std::task::Waker::noop());
+    match f.as_mut().poll(&mut cx) { std::task::Poll::Ready(v) => v, std::task::Poll::Pending => panic!("stub future pending") }
 }
 fn main() {}
